@@ -1,10 +1,10 @@
-SPECIFICATION Spec
+SPECIFICATION FairSpec
 CONSTANTS
   StepCount = 2
   MaxScen = 2
   MaxSuites = 2
   MaxFail = 0
-  FixDrain = FALSE
+  FixDrain = TRUE
   FixCtrlC = TRUE
   FixDrainExec = TRUE
   FixSetup = TRUE
@@ -12,12 +12,7 @@ CONSTANTS
   AllowStop = FALSE
   AllowCtrlC = FALSE
   AllowError = FALSE
-  AliveCheck = TRUE
+  AliveCheck = FALSE
 INVARIANT ProtocolOK
-INVARIANT ClosedAtEnd
-INVARIANT NoProblemLost
-INVARIANT AtMostOneRequestAfterStop
-INVARIANT AtMostOneScenarioAfterStop
-INVARIANT StepsBounded
-INVARIANT FailureLimit
+PROPERTY Termination
 CHECK_DEADLOCK FALSE
